@@ -141,33 +141,57 @@ def synthetic(run, ntables, per_table):
 
 # ---- witnesses of the recorded findings (also proved rejected in Props/C09.lean) ------------------------------------
 def witness_tables():
+    """(name, function, factory, query, types, predicate on the answer): the recorded findings, by hand"""
     import src.ir.types as tp
     import src.ir.kotlin_types as kt
+    import src.ir.java_types as jt
     bt = kt.KotlinBuiltinFactory()
+    jbt = jt.JavaBuiltinFactory()
     Foo = tp.SimpleClassifier("Foo", [kt.Any])
     Baz = tp.SimpleClassifier("Baz", [kt.Any])
     Bar = tp.TypeConstructor("Bar", [tp.TypeParameter("T")], [Foo])
     Prod = tp.TypeConstructor("Prod", [tp.TypeParameter("T", tp.Covariant)], [kt.Any])
+    Lone = tp.SimpleClassifier("Lone", [])
+    W = tp.TypeParameter("W")
+    Box = tp.TypeConstructor("Box", [tp.TypeParameter("T")], [kt.Any])
+    Hold = tp.TypeConstructor("Hold", [W], [Box.new([W])])
+    T2 = tp.TypeParameter("T")
+    Qux = tp.TypeConstructor("Qux", [T2, tp.TypeParameter("W", bound=T2)], [kt.Any])
+    Node = tp.TypeConstructor("Node", [tp.TypeParameter("Y")], [kt.Any])
+    Wrap = tp.SimpleClassifier("Wrap", [kt.Any])
+    Leaf = tp.SimpleClassifier("Leaf", [Node.new([Wrap]), kt.Any])
     return [
-        ("generic_subclass", bt, Foo, [Foo, Bar, Baz, kt.String], lambda r: kind(r) == "p" and r.name == "Bar"),
-        ("same_constructor", bt, Prod.new([kt.Any]), [Foo, Baz, Prod, kt.String],
+        ("generic_subclass", "irrelevant", bt, Foo, [Foo, Bar, Baz, kt.String],
+         lambda r: kind(r) == "p" and r.name == "Bar"),
+        ("same_constructor", "irrelevant", bt, Prod.new([kt.Any]), [Foo, Baz, Prod, kt.String],
          lambda r: kind(r) == "p" and r.name == "Prod"),
+        ("top_type", "irrelevant", bt, Lone, [Lone, Baz, kt.Any, kt.String], lambda r: r == kt.Any),
+        ("primitive_box", "irrelevant", jbt, jt.FloatType(primitive=True), [jt.Number, jt.String, jt.Float],
+         lambda r: r == jt.Number),
+        ("generic_subclass_parameterized", "irrelevant", bt, Box.new([kt.String]), [Box, Hold, kt.String, Baz],
+         lambda r: kind(r) == "p" and r.name == "Hold" and r.type_args[0] == kt.String),
+        ("param_bounded_param", "subtypes", bt, Qux.new([Node.new([tp.WildCardType(Wrap, tp.Covariant)]), Leaf]),
+         [Qux, Node, Wrap, Leaf, kt.String],
+         lambda rs: any(kind(r) == "p" and r.name == "Qux" and r.type_args[0] == Leaf for r in rs)),
     ]
 
 
-def detect_variant():
-    """which find_irrelevant_type does the tree implement?  Replays the two witnesses."""
+def run_witness(tu, w, seed):
     from src import utils
+    name, func, bt, q, types, pred = w
+    utils.random.r.seed(seed)
+    if func == "irrelevant":
+        r = tu.find_irrelevant_type(q, types, bt)
+        return r is not None and pred(r)
+    return pred(tu.find_subtypes(q, types, include_self=True, concrete_only=True))
+
+
+def detect_variant():
+    """which find_irrelevant_type does the tree implement?  Replays the witnesses of the repaired defects."""
     import src.ir.type_utils as tu
     seen = {}
-    for name, bt, q, types, pred in witness_tables():
-        hit = 0
-        for i in range(60):
-            utils.random.r.seed(i)
-            r = tu.find_irrelevant_type(q, types, bt)
-            if r is not None and pred(r):
-                hit += 1
-        seen[name] = hit
+    for w in witness_tables()[:4]:
+        seen[w[0]] = sum(1 for i in range(60) if run_witness(tu, w, i))
     if all(seen.values()):
         return "asIs", seen
     if not any(seen.values()):
@@ -176,23 +200,23 @@ def detect_variant():
 
 
 def witnesses(run):
-    from src import utils
     import src.ir.type_utils as tu
-    for name, bt, q, types, pred in witness_tables():
+    for w in witness_tables():
+        name, func, bt, q, types, pred = w
         frames = []
         hit = 0
         with fl.Instrument() as ins:
             for i in range(60):
-                utils.random.r.seed(i)
-                r = tu.find_irrelevant_type(q, types, bt)
-                if r is not None and pred(r):
+                if run_witness(tu, w, i):
                     hit += 1
                 for fr in ins.take():
-                    if fr["kind"] == "irrelevant" and fr["depth"] == 0:
+                    if fr["depth"] == 0 and fr["kind"] == ("irrelevant" if func == "irrelevant" else "find"):
+                        fr["boxes"] = fl.boxes_of(bt)
+                        fr["where"] = {"witness": name}
                         frames.append(fr)
         run.tally("witness_" + name, "present" if hit else "absent")
         run.log("witness %s: the answer of the recorded shape appeared in %d of 60 draws" % (name, hit))
-        eval_frames(run, frames, "witness " + name, origin={"stream": "witness", "name": name})
+        eval_frames(run, frames, "witness " + name, origin={"stream": "witness"})
 
 
 # ---- generator stream --------------------------------------------------------------------------------------------
@@ -204,7 +228,7 @@ def generator_stream(run, nprog):
         specs.append({"lang": lang, "seed": run.seed * 100003 + i, "switches": (0, 0, 0, 0), "max_depth": 6,
                       "stages": ["gen", "overwrite"], "export": False, "cap": 60 if run.tier == "quick" else 150,
                       "plugins": ["plug_find"], "find_variant": fl.VARIANT["v"]})
-    results = pipeline.run_many(specs, workers=16 if nprog <= 16 else None)
+    results = pipeline.run_many(specs, workers=12 if nprog <= 12 else None)
     cut = exc = 0
     agg = {"frames": 0, "requests": 0, "exact_diffs": 0, "rejected": 0, "returned_types": 0, "calls_find": 0,
            "calls_irrelevant": 0}
@@ -280,8 +304,8 @@ def check(run):
         run.assumptions.append("the tree implements the repaired find_irrelevant_type; switch Heph.Find.Variant.current to "
                                ".repaired")
     witnesses(run)
-    synthetic(run, 40 if quick else 1500, 40 if quick else 60)
-    generator_stream(run, 16 if quick else 240)
+    synthetic(run, 30 if quick else 1500, 40 if quick else 60)
+    generator_stream(run, 12 if quick else 240)
     if not proofs_ok and not run.violations:
         run.violation({"kind": "broken-proof", "obligations": run.broken}, signature="proof", no_input=True)
 
